@@ -758,7 +758,13 @@ pub fn run(tier: Tier) -> i32 {
     let mut ck = Check::new("C20", tier, Duration::from_secs(if tier == Tier::Quick { 50 } else { 1800 }));
     let ecfg = ExploreCfg { max_dev: if tier == Tier::Quick { 2 } else { 4 }, max_execs: if tier == Tier::Quick { 600_000 } else { 20_000_000 }, max_polls: 60_000, ..Default::default() };
     let cfgs = configs(tier);
-    for (i, c) in cfgs.iter().enumerate() {
+    // the cheap families first (read rate, connect timeout, client pings), the large keep-alive families last: a
+    // thorough run that ends on its time budget has then covered every family (configuration indices stay those of
+    // `configs()`, replay files refer to them)
+    let mut order: Vec<usize> = (0..cfgs.len()).collect();
+    order.sort_by_key(|i| cfgs[*i].kind == Kind::KeepAlive);
+    for i in order {
+        let c = &cfgs[i];
         // fragment placements need more events than the other families
         let mut e = ecfg.clone();
         if matches!(c.kind, Kind::ReadRate | Kind::Connect) || c.ep.ready_gate {
